@@ -50,7 +50,7 @@ NearCreds(pairs) ==
 
 SpellKinds == {"nopad", "noncanon", "lower", "upper", "twospace"}
 OtherKinds == {"nospace", "tab", "bearer", "digest", "schemeonly", "missing", "badchar", "trailing", "lead", "midpad",
-               "nonutf8_last", "nonutf8_trunc", "nonutf8_mid", "rawff"}
+               "nonutf8_last", "nonutf8_trunc", "nonutf8_mid", "nonutf8_repl", "rawff"}
 BasicHeaders(pairs) ==
   LET n == Len(pairs) IN
        {[kind |-> "basic", cred |-> c] : c \in NearCreds(pairs)}
